@@ -382,7 +382,8 @@ func c08defaults(c *Ctx, rd *reader, rule string) {
 				ev := &p.Events[i]
 				if ev.Kind == core.EvCall && ev.Static != nil && extName(ev.Static) == "(encoding/binary.bigEndian).PutUint16" {
 					v := strip(ev.Args[len(ev.Args)-1])
-					if v.Kind == core.KParam && v.Ref == fcm.Params[0] && ev.Args[len(ev.Args)-2] == p.Results[0] {
+					resBase, _ := appendChain(p.Results[0])
+					if v.Kind == core.KParam && v.Ref == fcm.Params[0] && (ev.Args[len(ev.Args)-2] == p.Results[0] || ev.Args[len(ev.Args)-2] == resBase) {
 						put = true
 					}
 				}
